@@ -221,3 +221,9 @@ impl AccessControlBuiltin {
     }
   }
 }
+
+// Verification hook: plain-data drivers (kept out of tree) for the signature and decision steps.
+#[cfg(feature = "rustdds_verif")]
+pub(crate) mod verif_hook {
+  include!(concat!(env!("RUSTDDS_VERIF_DIR"), "/incrate/hooks_access.rs"));
+}
